@@ -134,11 +134,18 @@ func buildC03(c C03Case) (pc gen.ProgCase, printerNs, printerTmpl string) {
 			ref.Cmd{K: "call", Call: &ref.Call{Target: "b.lib.show", Style: 1, Params: []ref.Param{{Key: "x", Value: &ref.Expr{Op: "str", S: "k"}}}}})}}
 	case "msg":
 		body := []ref.Cmd{txt("Hi " + s1), under, txt(s2 + " there")}
-		if c.Decoy > 0 {
+		if c.Decoy == 1 || c.Decoy == 2 {
 			dd := []ref.Directive{{Name: []string{"noAutoescape", "id"}[c.Decoy-1]}}
 			body = append([]ref.Cmd{txt("raw: "), {K: "print", Expr: xe, Directives: dd}, txt(" ")}, body...)
 		}
 		main.Body = []ref.Cmd{{K: "msg", Desc: "m", Body: body}}
+		if c.Decoy >= 3 {
+			// a twin in front: the same text and the same placeholder name - one id, one catalogue entry -
+			// over a print of the same expression with a cancelling directive
+			dd := []ref.Directive{{Name: []string{"noAutoescape", "id"}[c.Decoy-3]}}
+			twin := []ref.Cmd{txt("Hi " + s1), {K: "print", Expr: xe, Directives: dd}, txt(s2 + " there")}
+			main.Body = []ref.Cmd{{K: "msg", Desc: "the twin", Body: twin}, txt("|"), main.Body[0]}
+		}
 	default:
 		panic("carrier " + c.Carrier)
 	}
@@ -296,8 +303,8 @@ func checkC03(c C03Case) Verdict {
 	}
 	// oracle 1: invariant on the frame, computed from the implementation's own output
 	i, j := strings.Index(rr.out, s1), strings.LastIndex(rr.out, s2)
-	if c.Carrier == "loop-around-call" {
-		i = strings.LastIndex(rr.out, s1) // the second iteration: a call has returned before this print
+	if c.Carrier == "loop-around-call" || c.Carrier == "msg" && c.Decoy >= 3 {
+		i = strings.LastIndex(rr.out, s1) // the second iteration: a call has returned before this print (or: the message behind its twin)
 	}
 	if i < 0 || j < i {
 		return bad(true, "sentinels not found in output %q", rr.out)
@@ -445,7 +452,7 @@ func genC03(t *rapid.T) C03Case {
 		Header:     rapid.Bool().Draw(t, "header"),
 		Split:      rapid.SampledFrom([]int{0, 0, 0, 1, 2, 3, 4}).Draw(t, "split"),
 		Bundle:     rapid.IntRange(0, 3).Draw(t, "bundle") == 0,
-		Decoy:      rapid.SampledFrom([]int{0, 0, 1, 2}).Draw(t, "decoy"),
+		Decoy:      rapid.SampledFrom([]int{0, 0, 1, 2, 3, 4}).Draw(t, "decoy"),
 		Source:     rapid.SampledFrom([]int{0, 0, 0, 1, 1, 2, 3}).Draw(t, "source"),
 		Harden:     rapid.IntRange(0, 7).Draw(t, "harden") == 5,
 	}
